@@ -14,10 +14,12 @@ import (
 	"time"
 )
 
-const prelude = `
+const preludeCommon = `
 (declare-fun validDenom (String) Bool)
 (declare-fun opaqueStr (Int) String)
 `
+const preludeExact = preludeCommon + "(define-fun nlmul ((a Int) (b Int)) Int (* a b))\n"
+const preludeUF = preludeCommon + "(declare-fun nlmul (Int Int) Int)\n"
 
 type Solver struct {
 	kind    string
@@ -31,7 +33,7 @@ type Solver struct {
 
 func solverArgs(kind string, timeoutMs int) (string, []string) {
 	switch kind {
-	case "z3new":
+	case "z3new", "z3new-uf":
 		return "z3-new", []string{"-in", fmt.Sprintf("-t:%d", timeoutMs)}
 	case "z3":
 		return "z3", []string{"-in", fmt.Sprintf("-t:%d", timeoutMs)}
@@ -74,7 +76,11 @@ func startSolver(kind string, timeoutMs int) (*Solver, error) {
 		s.Send("(set-logic ALL)")
 	}
 	s.Send("(set-option :produce-models true)")
-	s.Send(prelude)
+	if kind == "z3new-uf" {
+		s.Send(preludeUF)
+	} else {
+		s.Send(preludeExact)
+	}
 	return s, nil
 }
 
@@ -193,6 +199,7 @@ type Session struct {
 	stats   *SolverStats
 	inPath  bool
 	where   string
+	noUF    bool
 	dump    io.Writer
 }
 
@@ -273,6 +280,31 @@ func (se *Session) Check(extra *Term, wantModel []*Term) (SatResult, map[string]
 	var names []string
 	for _, w := range wantModel {
 		names = append(names, se.r.Render(w))
+	}
+	if se.r.sawNL && !se.noUF {
+		// sound abstraction: non-linear products as an uninterpreted function; only an
+		// `unsat` answer is used
+		s := se.solver("z3new-uf")
+		var sb strings.Builder
+		sb.WriteString("(push)\n")
+		for _, c := range se.script {
+			sb.WriteString(c)
+			sb.WriteByte('\n')
+		}
+		sb.WriteString("(assert " + es + ")\n(check-sat)")
+		t0 := time.Now()
+		lines, ok := s.roundTrip(sb.String())
+		res := classify(lines, ok)
+		se.stats.add("z3new-uf", time.Since(t0))
+		if ok {
+			s.Send("(pop)")
+		}
+		if traceSolver {
+			fmt.Printf("  [q z3new-uf %s %.2fs] %s\n", res, time.Since(t0).Seconds(), se.where)
+		}
+		if res == Unsat {
+			return Unsat, nil
+		}
 	}
 	for i, kind := range se.order {
 		s := se.solver(kind)
